@@ -577,8 +577,8 @@ pub fn run(ctx: &Ctx) {
     ctx.rule("programs = one-line TeX sources rendered from histories of {, }, local/\\global/\\gdef/\\let/\\globaldefs assignments to count/dimen/skip/toks registers, \\countdef/\\toksdef/\\chardef aliases, macros \\ma \\mb and active ~, \\catcode/\\mathcode entries, \\endlinechar, \\globaldefs and the current font, with reads of every target after every group end; output compared with a stack-of-snapshots model. non-trivial = some target assigned both locally and globally within one group at depth>=2; distinct = by program text");
     ctx.assume("\\global\\chardef is a fatal error in Texlang (not prefixable); \\chardef is therefore made global only through \\globaldefs");
     ctx.assume("dimension and glue values are whole points so printing does not depend on print_scaled (decided by C06)");
-    let n = ctx.tier.pick(12_000u64, 300_000u64);
+    let n = ctx.tier.pick(100_000u64, 1_500_000u64);
     run_generated(ctx, "scoping", n, || program_strategy(60), |p: &Program, case| oracle(ctx, p, case));
-    let n2 = ctx.tier.pick(2_000u64, 50_000u64);
+    let n2 = ctx.tier.pick(12_000u64, 150_000u64);
     run_generated(ctx, "scoping_long", n2, || program_strategy(250), |p: &Program, case| oracle(ctx, p, case));
 }
